@@ -720,14 +720,18 @@ func fix128BigIntToFix64(
 	bigInt *big.Int,
 ) Fix64Value {
 
-	if bigInt.Cmp(fixedpoint.Fix64TypeMaxScaledTo128) > 0 {
-		panic(&OverflowError{})
-	} else if bigInt.Cmp(fixedpoint.Fix64TypeMinScaledTo128) < 0 {
-		panic(&UnderflowError{})
-	}
-
 	// NOTE: truncate toward zero (Quo), do not round toward negative infinity (Div)
 	bigInt = new(big.Int).Quo(bigInt, fixedpoint.Fix64ToFix128FactorAsBigInt)
+
+	// Check the range of the truncated value, not of the value before truncation:
+	// excess fractional digits must not make a representable value fail
+	if !bigInt.IsInt64() {
+		if bigInt.Sign() < 0 {
+			panic(&UnderflowError{})
+		}
+		panic(&OverflowError{})
+	}
+
 	return NewFix64Value(
 		memoryGauge,
 		func() int64 {
